@@ -131,6 +131,21 @@ func checkPosaRepoint(c *core.Ctx, pkg string) {
 
 	// (a) deletion loop
 	dels := ir.CallsTo(fn, del)
+	if len(dels) == 0 {
+		// the deletion loop may stand in a same-package helper addHeader calls (its parameters are bound to
+		// the call's arguments, so `number+1` is still recognised as header.Number+1)
+		for _, ci := range ir.Calls(fn, func(ci ssa.CallInstruction) bool {
+			h := ci.Common().StaticCallee()
+			return h != nil && h != fn && h.Pkg == fn.Pkg && len(h.Blocks) > 0 && len(ir.CallsTo(h, del)) > 0
+		}) {
+			h := ci.Common().StaticCallee()
+			unbind := ir.BindParams(h, ci.Common().Args)
+			defer unbind()
+			c.Attribute(h, fn)
+			dels = ir.CallsTo(h, del)
+			break
+		}
+	}
 	c.Floor("deleteCanonicalHash calls in "+pkg+".addHeader", len(dels), 1)
 	for _, d := range dels {
 		pos := c.P.Rel(d.Pos())
